@@ -388,6 +388,7 @@ def audit(case, res, model, kind, v, stats):
             n += 1
             if res.get("snapshot_reads_of_flushed"):
                 fails.append(("C16_read_latest/rpc-kind", "snapshot-tier Get/BatchGet at the transaction's start ts asked for keys it has already flushed (must be read through BufferBatchGet): %s" % sorted(set(res["snapshot_reads_of_flushed"]))))
+        if res.get("primary") is not None:
             # keep-alive of the primary lock runs once the primary is flushed, and stops with the transaction
             first = ref["sent"][0] if ref["sent"] else None
             g = 0
@@ -413,7 +414,7 @@ def audit(case, res, model, kind, v, stats):
                     fails.append(("C16_crash_recoverable/primary", "primary key %s, first flushed key is %s" % (res.get("primary"), exp_primary)))
     # every flushed key lies in a region that answered a ResolveLock (layout may change while the resolve runs)
     flushed = sorted({k for g in ref["sent"] for k in ref["gens"][g]}) if case["mode"] == "txn" else sorted({o[1] for o in case["ops"] if o[0] == "set"})
-    if kind == "mock" and case["end"] in ("commit", "rollback") and not ref["inject"] and not case.get("resolve_nil_at"):
+    if res.get("served") is not None and case["end"] in ("commit", "rollback") and not ref["inject"] and not case.get("resolve_nil_at"):
         served = res.get("served") or []
         for k in flushed:
             n += 1
@@ -578,8 +579,11 @@ def run_unistore(tier, seed, v, stats, robj, r):
     if robj and robj.get("driver") == "pipelinedtxn-uni":
         cases = [robj["case"]]
     else:
-        classes = ["single", "border", "rand", "grow", "regroup", "regroup"]
-        cases = [gen_case(r, "u%d-%d" % (seed, i), classes[i % len(classes)], uni=True) for i in range(320)]
+        classes = ["single", "border", "rand", "grow", "regroup", "regroup", "dynresolve", "insert", "primary", "crash", "bgetsplit"]
+        cases = [with_cancel(r, gen_case(r, "u%d-%d" % (seed, i), classes[i % len(classes)], uni=True)) for i in range(330)]
+        for c in cases:   # the unistore cluster handle offers no merge
+            if c.get("resolve_changes"):
+                c["resolve_changes"] = [x for x in c["resolve_changes"] if x[1] == "split"]
     cf = os.path.join(vlib.BUILD, "c16", "uni-%d.json" % seed)
     json.dump(cases, open(cf, "w"))
     env = dict(os.environ); env["PIPELINED_CLOSE_PAR"] = "48"
